@@ -25,7 +25,13 @@ property text: a vectorised binary64 evaluation for points whose margins are >= 
 integer/Fraction oracle of harness/c16.py for all others and for a random sample of the rest (self
 check).  On the implementation's own output: every borehole inside-or-in-band of a property outline
 and strictly outside every no-go band; per candidate list the returned fields are exactly the
-non-empty cuts of the grid fields (so no clearly-inside grid borehole is dropped), no empty field,
+non-empty cuts of the grid fields (so no clearly-inside grid borehole is dropped), where the grid is
+the ORACLE's: bounding box = the harness's own max over the vertices of ALL outlines, candidate grids
+of that box from the binary64 Domains model (C03), cut by the oracle — nothing of it comes from the
+implementation, so a grid that is too small / misplaced is a `grid-borehole-dropped` /
+`not-a-grid-borehole` / `list-count` violation; determine_largest_rectangle's output is compared
+with the oracle's bounding box as a predicate of its own; a call that raises on a well-formed input
+whose every candidate list has allowed boreholes is `raised-although-candidates-exist`; no empty field,
 counts non-decreasing, equal counts in grid order.  Points within 1e-9 of the band boundary are
 counted and left out (binary64 rounding of three square roots may decide there).
 """
@@ -35,6 +41,7 @@ import hashlib
 import json
 import math
 import os
+import random
 import time
 from fractions import Fraction
 
@@ -235,17 +242,95 @@ def norm_bounds(b):
     return [b] if is_flat(b) else list(b)
 
 
+_EXE = core.LEAN / ".lake" / "build" / "bin" / "driver"
+
+
+def oracle_grid(L, W, bmin, bx, by):
+    """bi_rectangle_nested(L, W, …) from the binary64 instance of Model/Domains.lean (own driver
+    process, usable inside pool workers).  None when the driver is unavailable or the generator raises."""
+    import subprocess
+
+    if not _EXE.exists():
+        return None
+    line = f"dom nest F 5 {core.rs(L)} {core.rs(W)} {core.rs(bmin)} {core.rs(bx)} {core.rs(by)}\n"
+    try:
+        r = subprocess.run([str(_EXE)], input=line, capture_output=True, text=True, timeout=1200)
+    except (OSError, subprocess.TimeoutExpired):
+        return None
+    out = r.stdout.strip()
+    if r.returncode != 0 or not out.startswith("ok"):
+        return None
+    nested = []
+    for part in out[2:].strip().split("|")[:-1]:
+        fs = []
+        for ftxt in part.split(";"):
+            ftxt = ftxt.strip()
+            if ftxt == "":
+                continue
+            pts = []
+            for q in ([] if ftxt == "_" else ftxt.split()):
+                x, y = q.split(",")
+                xn, xd = x.split("/")
+                yn, yd = y.split("/")
+                pts.append((int(xn) / int(xd), int(yn) / int(yd)))
+            fs.append(pts)
+        nested.append(fs)
+    return nested
+
+
+def FR_rect(props):
+    from ghedesigner import feature_recognition as FR
+
+    return FR.determine_largest_rectangle(props)
+
+
+def well_formed(case):
+    """Inputs inside the property's quantifier: >= 1 outline, every polygon >= 3 vertices, positive spacings."""
+    props, nogos = norm_bounds(case["prop"]), norm_bounds(case["nogo"])
+    if not props or any(len(p) < 3 for p in props + nogos):
+        return False
+    if case["via"] == "fn" and is_flat(case["prop"]):
+        return False
+    if case.get("kc") not in (None, [True, False]):
+        return False
+    return case["bmin"] > 0 and case["bx"] >= case["bmin"] and case["by"] >= case["bmin"]
+
+
 def predicate(case, doms, stats, rng):
-    """Property predicate on the implementation's own output.  -> list of (kind, what)."""
+    """Property predicate on the implementation's own output (`doms is None`: it raised).
+    -> list of (kind, what)."""
     import numpy as np
     from ghedesigner import domains as D
 
     fails = []
+    raised = doms is None
+    if raised:
+        doms = []
     props = [[(float(x), float(y)) for x, y in p] for p in norm_bounds(case["prop"])]
     nogos = [[(float(x), float(y)) for x, y in p] for p in norm_bounds(case["nogo"])]
+    # the oracle's OWN bounding box: over the vertices of ALL outlines
     L = max(v[0] for p in props for v in p)
     W = max(v[1] for p in props for v in p)
-    grid, grid_desc = D.bi_rectangle_nested(L, W, case["bmin"], case["bx"], case["by"])
+    X0 = min(v[0] for p in props for v in p)
+    Y0 = min(v[1] for p in props for v in p)
+    try:
+        rect = FR_rect([list(map(list, p)) for p in props])
+        want_rect = [[X0, Y0], [L, Y0], [L, W], [X0, W], [X0, Y0]]
+        if [[float(a), float(b)] for a, b in rect] != want_rect:
+            fails.append(("bounding-rectangle", f"determine_largest_rectangle gives {rect} for {len(props)} outlines whose vertices span x [{X0}, {L}] y [{Y0}, {W}]"))
+    except Exception as e:  # noqa: BLE001
+        fails.append(("bounding-rectangle", f"determine_largest_rectangle raised {type(e).__name__} on {len(props)} non-empty outlines"))
+    # the candidate grids of that box: from the binary64 instance of the Domains model (C03), not from the implementation
+    grid = oracle_grid(L, W, case["bmin"], case["bx"], case["by"])
+    try:
+        impl_grid, grid_desc = D.bi_rectangle_nested(L, W, case["bmin"], case["bx"], case["by"])
+    except Exception:  # noqa: BLE001
+        impl_grid, grid_desc = None, []
+    if grid is None:
+        stats["oracle-grid-from-implementation(driver unavailable)"] = 1
+        grid = [[[(float(x), float(y)) for x, y in f] for f in dom] for dom in (impl_grid or [])]
+    elif impl_grid is not None and [[[(float(x), float(y)) for x, y in f] for f in dom] for dom in impl_grid] != grid:
+        stats["grid-generator-differs-from-model"] = 1
     # all distinct points (grid + returned)
     index = {}
     for dom in grid:
@@ -295,6 +380,13 @@ def predicate(case, doms, stats, rng):
             far = max(far, min(seg_dist(p, pts[k]) for p in props))
     stats["max-distance-of-band-only-borehole-from-outline"] = far
 
+    if raised:
+        # the call raised: that is a loss of candidate fields when every list of the oracle's grid has an allowed borehole
+        if grid and all(any(any(K[index[p]] for p in f) for f in dom) for dom in grid) \
+                and not any(K[index[p]] is None for dom in grid for f in dom for p in f):
+            n_ok = sum(1 for k in range(n_grid_pts) if K[k])
+            fails.append(("raised-although-candidates-exist", f"the call raised {case.get('_raised')} although every one of the {len(grid)} candidate lists of the {L} x {W} bounding rectangle has allowed grid boreholes ({n_ok} distinct allowed boreholes)"))
+        return fails, grid_desc
     # (1) every returned borehole is inside-or-in-band of the property and outside every no-go band
     for li, dom in enumerate(doms):
         for fi, f in enumerate(dom):
@@ -319,7 +411,7 @@ def predicate(case, doms, stats, rng):
         exp = []
         undec = False
         for gi, g in enumerate(gdom):
-            ks = [index[(float(p[0]), float(p[1]))] for p in g]
+            ks = [index[p] for p in g]
             if any(K[k] is None for k in ks):
                 undec = True
             cut = [pts[k] for k in ks if K[k]]
@@ -354,7 +446,7 @@ def predicate(case, doms, stats, rng):
             for gi, cut, clear, _ in exp:
                 if not clear:
                     continue
-                gs = set((float(p[0]), float(p[1])) for p in gdom[gi])
+                gs = set(gdom[gi])
                 if not any(set(clear) <= s and s <= gs for s in gsets):
                     fails.append(("grid-borehole-dropped", f"list {li}: no returned field contains the {len(clear)} clearly allowed boreholes of grid field {gi}"))
                     break
@@ -377,8 +469,17 @@ def work(case):
         doms, descs, err = None, None, err_name(e)
         raw = f"{type(e).__name__}: {e}"
     res = {"err": err, "impl_s": round(time.time() - t0, 3)}
+    stats = {}
+    rng = random.Random(case_id(case))
     if err is not None:
         res["raw"] = raw[:200]
+        if well_formed(case):
+            try:
+                fails, _ = predicate({**case, "_raised": raw[:80]}, None, stats, rng)
+                res["fails"] = fails[:6]
+                res["stats"] = stats
+            except Exception as e:  # noqa: BLE001
+                res["pred_error"] = f"{type(e).__name__}: {e}"[:200]
         return res
     doms = [[[(float(x), float(y)) for x, y in f] for f in dom] for dom in doms]
     descs = [list(d) for d in descs]
@@ -386,10 +487,13 @@ def work(case):
     res["hash"] = [[field_hash(np.array(f, dtype=np.float64).reshape(-1, 2)) for f in dom] for dom in doms]
     res["points"] = sum(sum(s) for s in res["shape"])
     res["fields"] = sum(len(s) for s in res["shape"])
-    stats = {}
-    rng = random.Random(case_id(case))
     t1 = time.time()
-    fails, grid_desc = predicate(case, doms, stats, rng)
+    try:
+        fails, grid_desc = predicate(case, doms, stats, rng)
+    except Exception as e:  # noqa: BLE001
+        import traceback
+        res["pred_error"] = f"{type(e).__name__}: {e} @ {traceback.format_exc(limit=2).splitlines()[-3].strip()}"[:300]
+        fails, grid_desc = [], []
     res["pred_s"] = round(time.time() - t1, 3)
     res["fails"] = fails[:6]
     res["stats"] = stats
@@ -557,17 +661,50 @@ def make_case(rng, size):
     W, H = (bmin * k1, bmin * k2) if aligned else (bmin * rng.uniform(2.5, size), bmin * rng.uniform(2.0, size))
     if rng.random() < 0.25:
         W, H = H, W
-    n_out = rng.choice([1, 1, 1, 2, 2, 3])
+    n_out = rng.choice([1, 1, 1, 2, 2, 2, 3, 3])
     touch = rng.random() < 0.8             # outlines reach the axes (the bounding rectangle starts at the origin anyway)
     props, shapes, orients = [], [], []
-    for j in range(n_out):
-        for _ in range(30):
-            shape = rng.choice(LOT_SHAPES)
-            if n_out == 1:
-                x0, y0, w, h = (0.0, 0.0, W, H) if touch else (rng.uniform(0.5, 0.3 * W), rng.uniform(0.5, 0.3 * H), 0.65 * W, 0.65 * H)
-            else:   # side by side or overlapping boxes
-                w, h = rng.uniform(0.35, 0.7) * W, rng.uniform(0.35, 1.0) * H
-                x0, y0 = (0.0 if (touch and j == 0) else rng.uniform(0, W - w)), (0.0 if (touch and j == 0) else rng.uniform(0, H - h))
+    layout = order = None
+    if n_out == 1:
+        boxes = [(0.0, 0.0, W, H) if touch else (rng.uniform(0.5, 0.3 * W), rng.uniform(0.5, 0.3 * H), 0.65 * W, 0.65 * H)]
+    else:
+        # several parcels; boxes[0] is the largest.  Which outline attains the overall maximum x / y, and where
+        # it stands in the list, is what the bounding rectangle must not depend on.
+        layout = rng.choice(["stack", "side", "overlap-corner", "overlap-side", "contained", "diagonal", "random"])
+        u = rng.uniform
+        if layout == "stack":          # max x: large parcel, max y: small parcel (disjoint)
+            boxes = [(0.0, 0.0, W, u(0.45, 0.6) * H), (u(0, 0.2) * W, 0.68 * H, u(0.25, 0.5) * W, 0.32 * H)]
+        elif layout == "side":         # max x: small parcel, max y: large parcel (disjoint)
+            boxes = [(0.0, 0.0, u(0.45, 0.6) * W, H), (0.68 * W, u(0, 0.2) * H, 0.32 * W, u(0.25, 0.5) * H)]
+        elif layout == "overlap-corner":   # the small parcel attains both maxima, overlapping
+            boxes = [(0.0, 0.0, 0.7 * W, 0.7 * H), (0.5 * W, 0.5 * H, 0.5 * W, 0.5 * H)]
+        elif layout == "overlap-side":     # overlapping; max x small, max y large
+            boxes = [(0.0, 0.0, 0.7 * W, H), (0.5 * W, u(0.1, 0.3) * H, 0.5 * W, u(0.25, 0.4) * H)]
+        elif layout == "contained":        # the large parcel attains both maxima
+            boxes = [(0.0, 0.0, W, H), (u(0.1, 0.3) * W, u(0.1, 0.3) * H, u(0.3, 0.5) * W, u(0.3, 0.5) * H)]
+        elif layout == "diagonal":         # disjoint; the small parcel attains both maxima
+            boxes = [(0.0, 0.0, 0.6 * W, 0.6 * H), (0.7 * W, 0.7 * H, 0.3 * W, 0.3 * H)]
+        else:
+            boxes = []
+            for j in range(2):
+                w, h = u(0.35, 0.7) * W, u(0.35, 1.0) * H
+                boxes.append(((0.0 if (touch and j == 0) else u(0, W - w)), (0.0 if (touch and j == 0) else u(0, H - h)), w, h))
+            boxes.sort(key=lambda b: -b[2] * b[3])
+        if n_out == 3:
+            w, h = u(0.15, 0.35) * W, u(0.15, 0.35) * H
+            boxes.append((u(0, W - w), u(0, H - h), w, h))
+        if not touch:
+            boxes = [(x + 0.05 * W + 0.5, y + 0.05 * H + 0.5, w, h) for x, y, w, h in boxes]
+        order = rng.choice(["largest-first", "largest-last", "largest-middle"])
+        rest = boxes[1:]
+        rng.shuffle(rest)
+        pos = {"largest-first": 0, "largest-last": len(rest), "largest-middle": len(rest) // 2 if len(rest) > 1 else rng.choice([0, 1])}[order]
+        if len(rest) == 1 and order == "largest-middle":
+            order = "largest-first" if pos == 0 else "largest-last"
+        boxes = rest[:pos] + [boxes[0]] + rest[pos:]
+    for (x0, y0, w, h) in boxes:
+        for attempt in range(30):
+            shape = rng.choice(LOT_SHAPES) if attempt < 25 else "rect"
             fp = finish_polygon(rng, shape_polygon(rng, shape, x0, y0, w, h), mode if not aligned or shape not in ("rect", "L", "U", "comb") else "real")
             if fp:
                 props.append(fp[0])
@@ -628,6 +765,13 @@ def make_case(rng, size):
     case = {"bmin": bmin, "bx": bx, "by": by, "prop": prop, "nogo": nogo, "via": via,
             "meta": {"lot": "+".join(shapes), "outlines": len(props), "nogo": "+".join(nshapes) or "none", "nogo_form": form,
                      "prop_form": pform, "orient": "/".join(orients), "coords": mode, "aligned": aligned, "touch_axes": touch}}
+    if len(props) > 1:
+        def where(i):
+            return "first" if i == 0 else ("last" if i == len(props) - 1 else "middle")
+        ix = max(range(len(props)), key=lambda i: max(v[0] for v in props[i]))
+        iy = max(range(len(props)), key=lambda i: max(v[1] for v in props[i]))
+        case["meta"].update({"layout": layout, "order": order, "max_x_by": where(ix) + " outline", "max_y_by": where(iy) + " outline",
+                             "maxima": "same outline" if ix == iy else "different outlines"})
     if rng.random() < 0.25:
         case["kc"] = [True, False]        # the default, passed explicitly
     elif rng.random() < 0.06:
@@ -766,24 +910,55 @@ def unit_streams(ctx, rng, quick):
     for i in range(100 if quick else 1000):
         polys = [[[rng.choice([rng.uniform(-50, 200), float(rng.randint(-5, 100))]), rng.choice([rng.uniform(-50, 200), float(rng.randint(-5, 100))])]
                   for _ in range(rng.randint(0, 6))] for _ in range(rng.randint(0, 4))]
-        got = FR.determine_largest_rectangle(polys)
+        try:
+            got = FR.determine_largest_rectangle(polys)
+        except Exception as e:  # noqa: BLE001
+            got = "raise:" + type(e).__name__
+        lines.append(f"dlr {len(polys)} " + " ".join(enc_poly(p) for p in polys))
+        expect.append((got, polys))
+    # multi-outline orders: the extrema attained by the first / a middle / the last outline
+    for i in range(60 if quick else 400):
+        k = rng.randint(2, 4)
+        polys = [[[rng.uniform(0, 100), rng.uniform(0, 100)] for _ in range(rng.randint(3, 6))] for _ in range(k)]
+        big = [[0.0, 0.0], [rng.uniform(100, 200), 0.0], [rng.uniform(100, 200), rng.uniform(100, 200)], [0.0, rng.uniform(100, 200)]]
+        polys.insert(rng.choice([0, len(polys) // 2, len(polys)]), big)
+        try:
+            got = FR.determine_largest_rectangle(polys)
+        except Exception as e:  # noqa: BLE001
+            got = "raise:" + type(e).__name__
         lines.append(f"dlr {len(polys)} " + " ".join(enc_poly(p) for p in polys))
         expect.append((got, polys))
     out = ctx.driver(lines)
+    first_pred = True
+    for j, (got, polys) in enumerate(expect):
+        ctx.case(("dlr", json.dumps(polys)), True)
+        vs = [v for p in polys for v in p]
+        ctx.count("determine_largest_rectangle: " + ("no vertex" if not vs else f"{len(polys)} outlines"))
+        # predicate: the oracle's own bounding box (min / max over ALL vertices)
+        if vs:
+            x0, x1 = min(v[0] for v in vs), max(v[0] for v in vs)
+            y0, y1 = min(v[1] for v in vs), max(v[1] for v in vs)
+            want = [[x0, y0], [x1, y0], [x1, y1], [x0, y1], [x0, y0]]
+            if got != want and first_pred:
+                first_pred = False
+                key = "bounding-rectangle-" + hashlib.sha1(json.dumps(polys).encode()).hexdigest()[:12]
+                ctx.finding(key, f"determine_largest_rectangle({len(polys)} outlines) = {got}, the vertices span {want}",
+                            {"function": "feature_recognition.determine_largest_rectangle", "outlines": polys, "impl": got, "oracle": want})
+        if out is None:
+            continue
+        o = out[j]
+        if isinstance(got, str):
+            ok = False
+        elif o.strip() == "inf":
+            ok = all(math.isinf(v) for pt in got for v in pt)
+        else:
+            body = o[2:].strip()
+            model = [[core.pr(t.split(",")[0]), core.pr(t.split(",")[1])] for t in body.split()]
+            ok = model == [[Fraction(x), Fraction(y)] for x, y in got]
+        if not ok:
+            broke("largest-rectangle-correspondence", {"outlines": polys, "impl": got, "model": o})
     if out is None:
         broke("largest-rectangle-correspondence", "driver failed")
-    else:
-        for o, (got, polys) in zip(out, expect):
-            ctx.case(("dlr", json.dumps(polys)), True)
-            ctx.count("determine_largest_rectangle: " + ("no vertex" if not any(polys) else "vertices"))
-            if o.strip() == "inf":
-                ok = all(math.isinf(v) for pt in got for v in pt)
-            else:
-                body = o[2:].strip()
-                model = [[core.pr(t.split(",")[0]), core.pr(t.split(",")[1])] for t in body.split()]
-                ok = model == [[Fraction(x), Fraction(y)] for x, y in got]
-            if not ok:
-                broke("largest-rectangle-correspondence", {"outlines": polys, "impl": got, "model": o})
 
     # ---- reorder_domain (stable sort, ties, truncating zip, empty domain)
     lines, expect = [], []
@@ -845,8 +1020,6 @@ def run(ctx: core.Ctx):
     rng = ctx.rng
     quick = ctx.tier == "quick"
 
-    unit_streams(ctx, rng, quick)
-
     if ctx.replay:
         j = json.loads(open(ctx.replay).read())
         cases = [j.get("replay", j).get("case", j.get("replay", j))]
@@ -885,7 +1058,8 @@ def run(ctx: core.Ctx):
     self_bad = []
     for i, (case, res) in enumerate(zip(cases, results)):
         meta = case.get("meta", {})
-        for k in ("stream", "lot", "outlines", "nogo", "nogo_form", "prop_form", "orient", "coords", "aligned", "touch_axes", "kc", "edge", "corpus"):
+        for k in ("stream", "lot", "outlines", "nogo", "nogo_form", "prop_form", "orient", "coords", "aligned", "touch_axes", "kc", "edge", "corpus",
+                  "layout", "order", "max_x_by", "max_y_by", "maxima"):
             if k in meta:
                 ctx.count(f"{k}: {meta[k]}")
         ctx.count("via: " + case["via"])
@@ -897,6 +1071,15 @@ def run(ctx: core.Ctx):
             if st.get(k):
                 agg[k] = agg.get(k, 0) + st[k]
         far = max(far, st.get("max-distance-of-band-only-borehole-from-outline", 0.0))
+        if st.get("grid-generator-differs-from-model"):
+            broke("grid-generator-correspondence", case, "bi_rectangle_nested on the oracle's bounding box differs from the binary64 Domains model")
+        if st.get("oracle-grid-from-implementation(driver unavailable)"):
+            ctx.count("oracle grid taken from the implementation (driver unavailable)")
+        if res.get("pred_error"):
+            ctx.count("predicate raised")
+            if "predicate-exception" not in ctx.broken:
+                ctx.broken.append("predicate-exception")
+                ctx.extra["predicate_exception_first"] = {"case": {k: v for k, v in case.items() if k != "meta"}, "error": res["pred_error"]}
         self_bad += st.get("oracle-self-check-bad", [])
         cut = bool(st.get("dropped-outside-property") or st.get("dropped-in-nogo") or st.get("dropped-on-nogo-band"))
         if res["err"] is None:
@@ -944,6 +1127,13 @@ def run(ctx: core.Ctx):
             ctx.count("descriptor lists compared", len(mdesc))
     for k, v in agg.items():
         ctx.count("points: " + k, v)
+    if not ctx.replay:
+        try:
+            unit_streams(ctx, random.Random(ctx.seed * 7919 + 4), quick)
+        except Exception as e:  # noqa: BLE001 - an implementation function that raises here must not stop the check
+            import traceback
+            ctx.broken.append("unit-streams: " + f"{type(e).__name__}: {e}"[:200])
+            ctx.extra["unit_streams_exception"] = traceback.format_exc()[-1500:]
     ctx.extra["max_distance_of_band_only_borehole_from_outline_m"] = round(far, 4)
     if self_bad:
         ctx.broken.append("oracle-self-check")
